@@ -109,6 +109,14 @@ def sig_negzero(c):
             and c.get("dec") == [0] * len(v))
 
 
+def sig_wal_header(c):
+    """C07-wal-header-only-tail: the only strict prefixes of a record the real replay failed to reject are the ones of
+    length exactly 5 (= WalRecordHeadSize: header complete, not one payload byte), alone (5) or after a complete copy of
+    the record (1000005), for a record whose compressed payload is not empty."""
+    return (c["k"] == "frame" and c.get("oracle") == "prefix-accepted" and len(c.get("c", "")) > 0
+            and set(c.get("pref", [])) <= {5, 1000005} and len(c.get("pref", [])) > 0)
+
+
 def nontrivial(c):
     """a case is non-trivial when the implementation produced a block in a compressed / structured mode (not the
     uncompressed fall-back, not an empty block) or when a frame had at least 5 prefixes tried"""
@@ -200,9 +208,13 @@ def classify(ck, cases, codes, stats):
                 fid = "C07-gorilla-error-path"
             elif sig_negzero(c) and code is not None and (code >> 4) == 0:
                 fid = "C07-negzero-same"
+            elif sig_wal_header(c) and code == 0:
+                fid = "C07-wal-header-only-tail"
             if fid and ck.match_finding(fid):
-                what = ("float block encoder panics (gorilla encoder error examined after re-slicing)"
-                        if fid.endswith("path") else "float column of -0.0/+0.0 stored in same-value mode reads back as +0.0")
+                what = {"C07-gorilla-error-path": "float block encoder panics (gorilla encoder error examined after re-slicing)",
+                        "C07-negzero-same": "float column of -0.0/+0.0 stored in same-value mode reads back as +0.0",
+                        "C07-wal-header-only-tail": "WAL record cut exactly after its 5-byte header is not recognised as "
+                                                    "incomplete: stale buffer content is decoded and delivered as a record"}[fid]
                 ck.known_finding(fid, what)
                 stats["known"][fid] = stats["known"].get(fid, 0) + 1
             else:
@@ -215,6 +227,8 @@ def classify(ck, cases, codes, stats):
             continue
         if c["k"] == "float":
             code &= 15      # the repaired model is the reference when the round trip is exact
+        if c["k"] == "frame":
+            code &= 15      # flag 16 (model of today's reader) only matters when a prefix was accepted
         if code != 0:
             mism.append((i, code))
     return mism
@@ -263,7 +277,8 @@ def main(ck):
         if more:
             for c in more:
                 if c.get("oracle") and not ((sig_gorilla(c) and ck.match_finding("C07-gorilla-error-path")) or
-                                            (sig_negzero(c) and ck.match_finding("C07-negzero-same"))):
+                                            (sig_negzero(c) and ck.match_finding("C07-negzero-same")) or
+                                            (sig_wal_header(c) and ck.match_finding("C07-wal-header-only-tail"))):
                     ck.violation({"kind": "direct-oracle", "what": c["oracle"], "case": slim(c),
                                   "explanation": "found by the fresh stream after a model/implementation disagreement"})
                     stats["violations"] += 1
